@@ -26,6 +26,7 @@ def claims() -> dict[str, dict]:
             continue
         mod = importlib.import_module(f"harness.props.{pid.lower()}")
         c = getattr(mod, "CLAIM", None)
-        if c:
+        lean = Path(__file__).parent.parent / "lean"
+        if c and (lean / mod.PROPS_FILE).exists():   # claimed only once its property theorems exist
             out[pid] = c
     return out
